@@ -6,18 +6,48 @@ FARM_CLAUSES_C05 = ["C05_StakeSum", "C05_Escrow", "C05_UnstakeNeverFails", "C05_
                     "Rejected_NoEffect"]
 FARM_CLAUSES_C06 = ["C06_Budget", "C06_Funded", "C06_AdjustApplies", "C06_ProRata", "C06_Flows", "C06_Rate", "C06_TouchAccrues", "C06_RefundOnce"]
 
+# diagnostic clauses (specification grown beyond the listed properties: governance-funded pools, AdjustPool
+# corners, as-is genesis round trips inside a history); evaluated on every trace and in the exhaustive configs,
+# reported under "other", never part of a verdict
+FARM_DIAGNOSTIC = ["X05_EscrowConservation", "X05_DepositsBacked", "X05_SupplyClosed", "X05_CommunityPool",
+                   "X05_ProposerFrame", "X06_ProposalRecorded", "X06_GovPool", "X06_VoteDecides", "X06_OneOutcome",
+                   "X06_CPNoPanic", "X06_AdjustNoPanic", "X06_AdjustGuard", "X12_Farm_Escrow", "X12_Farm_RoundTrip",
+                   "C06_Covered"]
+# gov=1: the harness completes the application wiring the community-pool path needs (escrow module account, farm
+# gov hooks, legacy proposal route - /repo's own application has none of them, finding FG1); reimport=1: as-is
+# genesis round trips between blocks
+FARM_GOV_CFG = "users=2,rdenoms=2,proposers=2,initlp=4,initr=40,gov=1,reimport=1,maxprops=6,initcp=30"
 FARM_RND = T(
-    [dict(n=12, len=25, procs=6, cfg="users=3,rdenoms=2,initlp=6,initr=60"),
-     dict(n=12, len=30, procs=6, cfg="users=2,rdenoms=1,initlp=4,initr=40,prec=100")],
+    [dict(n=12, len=25, procs=5, cfg="users=3,rdenoms=2,initlp=6,initr=60"),
+     dict(n=12, len=30, procs=5, cfg="users=2,rdenoms=1,initlp=4,initr=40,prec=100,reimport=1"),
+     dict(n=10, len=30, procs=4, cfg=FARM_GOV_CFG)],
     [dict(n=60, len=30, procs=7, cfg="users=3,rdenoms=2,initlp=6,initr=60"),
-     dict(n=60, len=40, procs=7, cfg="users=2,rdenoms=1,initlp=4,initr=40,prec=100")])
-FARM_GEN = T([dict(cfg="GEN_Farm.cfg", num=20, depth=15, seeds=12)],
-             [dict(cfg="GEN_Farm.cfg", num=60, depth=17, seeds=14)])
+     dict(n=60, len=40, procs=7, cfg="users=2,rdenoms=1,initlp=4,initr=40,prec=100,reimport=1"),
+     dict(n=60, len=40, procs=7, cfg=FARM_GOV_CFG),
+     dict(n=30, len=40, procs=4, cfg=FARM_GOV_CFG + ",burnpre=1,burnq=1,burnv=0,govdp=1,govvp=3")])
+FARM_GEN_GOV_CFG = "users=2,rdenoms=2,proposers=2,initlp=3,initr=20,prec=10,gov=1"
+FARM_GEN = T([dict(cfg="GEN_Farm.cfg", num=20, depth=15, seeds=10),
+              dict(cfg="GEN_FarmGov.cfg", num=20, depth=24, seeds=4, driver_cfg=FARM_GEN_GOV_CFG)],
+             [dict(cfg="GEN_Farm.cfg", num=60, depth=17, seeds=14),
+              dict(cfg="GEN_FarmGov.cfg", num=60, depth=28, seeds=10, driver_cfg=FARM_GEN_GOV_CFG)])
 FARM_SCN = [dict(file="scenarios/farm_F2.ndjson", cfg="users=2,rdenoms=1,initlp=3,initr=20,prec=10"),
             dict(file="scenarios/farm_F3.ndjson", cfg="users=3,rdenoms=2,initlp=6,initr=60,prec=10"),
             # regression for fixed finding F30 (plain send to the module address before the account exists)
-            dict(file="scenarios/farm_F30.ndjson", cfg="users=2,rdenoms=1,initlp=3,initr=20,prec=10")]
-FARM_MC = T([dict(cfg="MC_Farm.cfg", timeout=1500)], [dict(cfg="MC_Farm_big.cfg", timeout=3400)])
+            dict(file="scenarios/farm_F30.ndjson", cfg="users=2,rdenoms=1,initlp=3,initr=20,prec=10"),
+            # governance-funded pools on the completed wiring: two proposals sharing the escrow (veto with burnt
+            # deposits, pass, cancel), the same with as-is genesis round trips in between, the straight line
+            dict(file="scenarios/farm_gov_life.ndjson", cfg="users=2,rdenoms=2,proposers=2,initlp=3,initr=20,prec=10,gov=1"),
+            # FG2: a cancelled proposal strands its escrow (X06_OneOutcome fails - diagnostic)
+            dict(file="scenarios/farm_gov_cancel.ndjson", cfg="users=2,rdenoms=2,proposers=2,initlp=3,initr=20,prec=10,gov=1"),
+            # FG1: the application as /repo builds it: the message panics (X06_CPNoPanic fails - diagnostic)
+            dict(file="scenarios/farm_gov_unwired.ndjson", cfg="users=2,rdenoms=2,initlp=3,initr=20,prec=10,gov=0,initcp=20"),
+            # AdjustPool corners: before start, stranger, not editable, empty, unknown pool, one-denom top-up, last
+            # block with nothing left to distribute (index panic before 3081448), after expiry
+            dict(file="scenarios/farm_adjust_corners.ndjson", cfg="users=2,rdenoms=2,initlp=3,initr=20,prec=10")]
+# MC_FarmGov: the proposal life cycle as a configuration of its own (one reward denom, two proposals sharing the
+# escrow, deposits / votes / cancellation / round trips, farmer operations on the created pool)
+FARM_MC = T([dict(cfg="MC_Farm.cfg", timeout=1500), dict(cfg="MC_FarmGov.cfg", timeout=600)],
+            [dict(cfg="MC_Farm_big.cfg", timeout=3400), dict(cfg="MC_FarmGov_big.cfg", timeout=3000)])
 
 RECORD = [dict(binary="farm", n=T(3, 12), len=25, cfg="users=3,rdenoms=2,initlp=6,initr=60")]
 
